@@ -29,3 +29,16 @@ Proof.
   specialize (H log2 Hb). rewrite forallb_forall in H. replace max with (Z.of_nat (Z.to_nat max)) by lia. apply H. apply in_seq. lia.
 Qed.
 
+
+(* bucket selection against the size table: every supported size is served by a list of the table whose nodes are large enough,
+   and no list's nodes exceed the maximum the array reports *)
+Definition bucket_table_okb (log2 : bool) (max : Z) : bool :=
+  let sizes := coll_sizes log2 max in let mx := coll_max log2 max in
+  (0 <? mx) && forallb (fun x => x <=? mx) sizes &&
+  forallb (fun i => let size := Z.of_nat i in (size <=? coll_bkt log2 size) && existsb (Z.eqb (coll_bkt log2 size)) sizes) (seq 1 (Z.to_nat mx)).
+Theorem bucket_table_ok_upto_128 : forall log2 max, 1 <= max <= 128 -> bucket_table_okb log2 max = true.
+Proof.
+  assert (H : forallb (fun b => forallb (fun i => bucket_table_okb b (Z.of_nat i)) (seq 1 128)) [true; false] = true) by (vm_compute; reflexivity).
+  intros log2 max Hm. rewrite forallb_forall in H. assert (Hb : In log2 [true; false]) by (destruct log2; cbn; auto).
+  specialize (H log2 Hb). rewrite forallb_forall in H. replace max with (Z.of_nat (Z.to_nat max)) by lia. apply H. apply in_seq. lia.
+Qed.
